@@ -6,9 +6,16 @@ independently of the code's own keep / burn-in decision).  `Model/Personalize.le
   * the mean of the kept draws on exact rationals of the recorded floats (compared through the float32/float64 summation envelope),
   * the selected draw with the very float32 (float64 for joint models) additions and comparisons torch performs (compared exactly),
   * the container `from_pytorch(dataset.indices, estimates)` (compared exactly).
-Optimisation-based algorithm (`scipy_minimize`): NOT modelled (scipy's Powell); the clause "never returns a point worse
+Optimisation-based algorithm (`scipy_minimize`): scipy's optimiser is NOT modelled; the clause "never returns a point worse
 than its start" is monitored on the real code: objective at the start point and at the returned point, recomputed on a fresh
 per-individual clone of the model state, `f(ret) <= f(start) + ftol * (1 + |f(start)|)` with the algorithm's own ftol.
+What IS modelled (`Model/Scalings.lean`) is the prior-standardized coordinate system the optimiser works in
+(`_AffineScaling`, `_AffineScalings1D`): the real classes are built (hand-made with dyadic loc / scale so that float32 arithmetic
+is exact, through `from_latent_variable` on 0-d / 1-d / 2-d priors, and through `from_state` on the states of the stored models)
+and `len`, `slices`, `stack`, `unstack`, `scaling`, `unscaling` — including what is raised on a missing variable or on lengths that
+cannot broadcast — are compared with the Lean model (exactly for dyadic inputs, through a float32 envelope otherwise); on every
+recorded scipy_minimize run the start point handed to scipy and the returned estimate are compared with `scaling(initial values)` /
+`unscaling(res.x)` of the model, and with a bit-exact numpy reference of `(x - mode)/stddev` / `mode + stddev*v`.
 """
 from __future__ import annotations
 
@@ -25,14 +32,28 @@ LEAN = dict(
     props="LeaspyVerif.Props.C17",
     driver="drivers/C17.lean",
     harness="c17_personalize.py",
-    extra_modules=["LeaspyVerif.Model.Personalize", "LeaspyVerif.Model.IndParams",
-                   "LeaspyVerif.Lemmas.IndParams", "LeaspyVerif.Lemmas.Personalize"],
+    extra_modules=["LeaspyVerif.Model.Personalize", "LeaspyVerif.Model.IndParams", "LeaspyVerif.Model.Scalings",
+                   "LeaspyVerif.Lemmas.IndParams", "LeaspyVerif.Lemmas.Personalize", "LeaspyVerif.Lemmas.Scalings"],
     theorems=["kept_eq_drop", "kept_count", "mean_is_mean_of_kept", "mean_undefined_iff", "mean_ignores_burnin",
               "keptLoss_get", "mode_is_kept_draw", "mode_minimal", "mode_first_on_ties",
-              "align_ids_order_shape", "align_empty_cohort", "align_duplicate_refused"],
+              "align_ids_order_shape", "align_empty_cohort", "align_duplicate_refused",
+              # prior-standardized coordinates of the optimisation (Model/Scalings.lean)
+              "mk_valid", "fromLatent_scalar_prior", "slices_names", "slices_start_stop", "slices_widths", "slices_partition",
+              "stack_shaped", "unstack_stack", "stack_unstack", "stack_missing_name", "stack_lookup_only",
+              "scaling_coordinatewise", "unscaling_coordinatewise", "scaling_shape", "unscaling_shape",
+              "unscaling_scaling", "scaling_unscaling", "transfer_to_natural", "transfer_to_standardized",
+              "start_point_zero", "patient_not_worse", "patient_optimal",
+              "zero_scale_unscaling_not_injective", "zero_scale_point_unreachable", "zero_scale_transfer_counterexample",
+              "scaling_wrong_length_not_refused", "unscaling_wrong_length_not_refused"],
     trusted_extra=[
         "PARTIAL: the optimiser clause (scipy_minimize never returns a worse point than its start) is monitored on the real "
-        "code, not proved: scipy's Powell implementation is outside the model",
+        "code, not proved: scipy's Powell implementation is outside the model; what is proved (patient_not_worse) is that "
+        "non-worsening of the objective handed to scipy (standardized coordinates) is non-worsening in natural coordinates",
+        "scalings: python slicing clamps, torch / numpy broadcasting of 1-D operands (equal lengths or one of length 1), "
+        "torch.cat([]) raises - modelled as such (bcast, slice, Err.runtime) and compared on hand-made mis-shaped inputs",
+        "scalings: float32 rounding of (x - loc)/scale and float64-then-float32 rounding of loc + scale*v are not modelled: "
+        "exact rationals compared through a 3u|result| resp. 2u(|loc|+|scale*v|+|result|) envelope (u = 2^-24), exactly on dyadic inputs; "
+        "division by a zero scale (IEEE inf / nan, Lean x/0 = 0) is not compared",
         "torch.argmin returns the first minimum on CPU for NaN-free input (assumed; compared on every recorded chain)",
         "float32 / float64 summation order of torch.mean is not modelled: exact rational mean compared through a (K+1)*eps*max|x| envelope",
         "Lean Float32 / Float addition and comparison are IEEE single / double (used to reproduce `attachments + regularities`)",
@@ -214,9 +235,28 @@ class MinimizeRecorder:
 
         def minimize(fun, x0, args=(), **kw):
             x0c = x0.copy()
-            res = rec.orig(fun, x0=x0, args=args, **kw)
+            # what the state holds for the individual variables when the optimisation starts, and the first evaluation
+            # of the objective (recorded on the way through; nothing is changed)
+            init, first = None, {}
+            try:
+                st0 = args[0]
+                init = {n: st0.get_tensor_value(n)[0].detach().clone() for n in st0.dag.individual_variable_names}
+            except Exception:  # noqa
+                init = None
+
+            def fun_rec(x, *a):
+                val = fun(x, *a)
+                if "x" not in first:
+                    try:
+                        first["x"], first["val"] = x.copy(), float(val)
+                    except Exception:  # noqa
+                        first["x"], first["val"] = None, None
+                return val
+
+            res = rec.orig(fun_rec, x0=x0, args=args, **kw)
             state, scaling = args
-            rec.calls.append(dict(x0=x0c, x=res.x.copy(), fun=float(res.fun), scaling=scaling,
+            rec.calls.append(dict(x0=x0c, x=res.x.copy(), fun=float(res.fun), scaling=scaling, init=init,
+                                  first_x=first.get("x"), first_val=first.get("val"),
                                   method=kw.get("method"), ftol=(kw.get("options") or {}).get("ftol"),
                                   gtol=(kw.get("options") or {}).get("gtol"), success=bool(res.success)))
             return res
@@ -396,6 +436,12 @@ def compare_mcmc(env, chk, pending, out):
     np = env["np"]
     for (kind, case, info), resp in zip(pending, out):
         cj = case_json(case)
+        if kind == "scal":
+            try:
+                compare_scal(env, chk, case, info, resp)
+            except Exception as e:  # noqa  (an implementation returning something unexpected is a disagreement, not a harness crash)
+                chk.disagree(info.get("cj"), "?", resp, f"scalings: implementation result not comparable ({type(e).__name__}: {e})")
+            continue
         if kind == "mean":
             try:
                 parts = dict(p.split("=", 1) for p in resp.split(" "))
@@ -452,7 +498,7 @@ def objective(env, model, dataset_i, ips_i):
     return float((st["nll_attach"] + 1.0 * st["nll_regul_ind_sum"]).item())
 
 
-def run_scipy_case(env, chk, case):
+def run_scipy_case(env, chk, case, lines=None, pending=None):
     torch = env["torch"]
     cj = case_json(case)
     model = load_model(env, case["model"])
@@ -488,10 +534,568 @@ def run_scipy_case(env, chk, case):
                                      f"(tolerance ftol={ftol} * (1+|f|), method {call['method']})")
             improved += int(f_ret < f_start)
             chk.tag("optimiser_method", call["method"])
+        if lines is not None:
+            try:
+                link_scipy_run(env, chk, case, model, data, input_ids, ips, rec, lines, pending)
+            except Exception as e:  # noqa  (a broken implementation must surface as an observation, not as a harness crash)
+                chk.impl_failure(cj, f"start point / returned estimate of the recorded run could not be related to the scalings: "
+                                     f"{type(e).__name__}: {e}")
     chk.case(("scipy", str(cj)), nontrivial=improved > 0, sample=cj if len(chk.samples) < 3 else None,
              tags={"algo": "scipy_minimize", "model": case["model"], "n_subjects": len(input_ids),
                    "single_visit_subjects": sum(len(s[2]) == 1 for s in case["cohort"]),
                    "missing_cells": sum(len(s[3]) for s in case["cohort"]) > 0, "outcome": "ok"})
+
+
+# ------------------------------------------------------------------ prior-standardized coordinates (_AffineScalings1D)
+U32 = Fraction(1, 2 ** 24)          # unit round-off of float32
+TINY = Fraction(1, 2 ** 140)
+SCAL_NAMES = ["tau", "xi", "sources", "é", "x y", "a", "b", "Z", "0", "tau2"]
+SCAL_MODELS = CONTINUOUS + JOINT + ["shared_speed_logistic_diag_noise_no_source_arm", "logistic_binary", "shared_speed_logistic_binary",
+                                    "linear_arm", "logistic_arm"]       # files tracked by git only (scratch worktrees must have them)
+
+
+def fr(x) -> str:
+    return fmt_rat(Fraction(float(x)))
+
+
+def scal_err(e) -> str:
+    if isinstance(e, KeyError):
+        return "err:key"
+    if isinstance(e, AssertionError):
+        return "err:assert"
+    if isinstance(e, (RuntimeError, ValueError)):      # torch: RuntimeError, numpy: ValueError (broadcast), torch.cat([])
+        return "err:runtime"
+    return f"err:other:{type(e).__name__}"
+
+
+def tns_build(env, spec):
+    torch = env["torch"]
+    kind, val = spec
+    if kind == "s":
+        return torch.tensor(float(Fraction(val)), dtype=torch.float32)
+    if kind == "v":
+        return torch.tensor([float(Fraction(a)) for a in val], dtype=torch.float32)
+    return torch.ones(tuple(val), dtype=torch.float32)
+
+
+def tns_fmt(spec) -> str:
+    kind, val = spec
+    if kind == "s":
+        return "s" + fmt_rat(Fraction(val))
+    if kind == "v":
+        return "v" + ":".join(fmt_rat(Fraction(a)) for a in val)
+    return "h" + ":".join(str(int(a)) for a in val)
+
+
+def tns_of_tensor(t):
+    if t.ndim == 0:
+        return ["s", fr(t)]
+    if t.ndim == 1:
+        return ["v", [fr(a) for a in t.tolist()]]
+    return ["h", list(t.shape)]
+
+
+def point_fmt(items) -> str:
+    """items: list of (name, [fraction strings])"""
+    if not items:
+        return "_"
+    return "&".join(f"x{hx(n)}~" + (":".join(fmt_rat(Fraction(a)) for a in vals) if vals else "e") for n, vals in items)
+
+
+def vec_fmt(vals) -> str:
+    return core.fmt_list([fmt_rat(Fraction(a)) for a in vals])
+
+
+def scal_models(env, name):
+    cache = env.setdefault("_scal_models", {})
+    if name not in cache:
+        with core.quiet():
+            cache[name] = load_model(env, name)
+    return cache[name]
+
+
+def scal_build(env, case):
+    """The REAL `_AffineScalings1D` for this case, or the canonical error of its construction.
+    Returns (object | error string, spec of the raw (name, loc, scale) tensors handed over, via for the model)."""
+    S, torch = env["scipy_mod"], env["torch"]
+    import types
+    if case["via"] == "state":
+        model = scal_models(env, case["model"])
+        st = model.state
+        vars_ = st.dag.sorted_variables_by_type[env["ILV"]]
+        # what from_state is specified to read: prior mode and prior stddev of every individual latent variable, in DAG order
+        raw = [[n, tns_of_tensor(v.prior.mode.call(st)), tns_of_tensor(v.prior.stddev.call(st))] for n, v in vars_.items()]
+        try:
+            return S._AffineScalings1D.from_state(st, var_type=env["ILV"]), raw, "latent"
+        except Exception as e:  # noqa
+            return scal_err(e), raw, "latent"
+    raw = case["s"]
+    try:
+        d = {}
+        for n, l, s in raw:
+            lt, stt = tns_build(env, l), tns_build(env, s)
+            if case["via"] == "latent":
+                var = types.SimpleNamespace(prior=types.SimpleNamespace(
+                    mode=types.SimpleNamespace(call=lambda _st, _t=lt: _t), stddev=types.SimpleNamespace(call=lambda _st, _t=stt: _t)))
+                d[n] = S._AffineScaling.from_latent_variable(var, None)
+            else:
+                d[n] = S._AffineScaling(lt, stt)
+        return S._AffineScalings1D(d), raw, case["via"]
+    except Exception as e:  # noqa
+        return scal_err(e), raw, case["via"]
+
+
+def scal_ops(env, obj, x_items, v_vals):
+    """Run the four operations of the real object; every result canonicalised to ('ok', value) | ('err', class)."""
+    torch, np = env["torch"], env["np"]
+    out = {}
+
+    def call(key, f):
+        try:
+            out[key] = ("ok", f())
+        except Exception as e:  # noqa
+            out[key] = ("err", scal_err(e))
+
+    if x_items is not None:
+        xd = {n: torch.tensor([float(Fraction(a)) for a in vals], dtype=torch.float32) for n, vals in x_items}
+        call("stack", lambda: obj.stack(xd).tolist())
+        call("scaling", lambda: obj.scaling(xd))
+    if v_vals is not None:
+        v64 = np.array([float(Fraction(a)) for a in v_vals], dtype=np.float64)
+        call("unstack", lambda: {n: t for n, t in obj.unstack(torch.as_tensor(v64, dtype=torch.float32)).items()})
+        call("unscaling", lambda: {n: t for n, t in obj.unscaling(v64).items()})
+    return out
+
+
+def rows_of(mapping):
+    """`unstack` / `unscaling` are specified to return (1, dim) tensors: list of (name, row) or a complaint."""
+    items = []
+    for n, t in mapping.items():
+        if t.ndim != 2 or t.shape[0] != 1:
+            return None, f"value of '{n}' has shape {tuple(t.shape)}, expected (1, dim)"
+        items.append((n, t[0].tolist()))
+    return items, None
+
+
+def np_reference(env, names, loc, scale, x_by_name=None, v=None):
+    """Bit-exact numpy reference of the documented formulas on well-shaped inputs (float32 for scaling; for unscaling the
+    arithmetic torch performs: in the dtype of `v` promoted with float32, rounded to float32)."""
+    np = env["np"]
+    out = {}
+    if x_by_name is not None:
+        with np.errstate(all="ignore"):
+            out["scaling"] = np.concatenate([((np.asarray(x_by_name[n], dtype=np.float32) - loc[n]) / scale[n]).astype(np.float32)
+                                             for n in names]) if names else np.zeros(0, dtype=np.float32)
+    if v is not None:
+        # torch promotes float32 tensor (op) float64 array to float64, and stays in float32 for a float32 array
+        # (scipy's Nelder-Mead keeps the float32 dtype of x0 for res.x, Powell returns float64)
+        vv = np.asarray(v)
+        wd = np.float32 if vv.dtype == np.float32 else np.float64
+        off, d = 0, {}
+        for n in names:
+            k = len(loc[n])
+            d[n] = (loc[n].astype(wd) + scale[n].astype(wd) * vv[off:off + k].astype(wd)).astype(np.float32)
+            off += k
+        out["unscaling"] = d
+    return out
+
+
+def scal_request(via, raw, x_items, v_vals) -> str:
+    s = "&".join(f"x{hx(n)}~{tns_fmt(l)}~{tns_fmt(sc)}" for n, l, sc in raw) or "_"
+    line = f"scal via={via} s={s}"
+    if x_items is not None:
+        line += f" x={point_fmt(x_items)}"
+    if v_vals is not None:
+        line += f" v={vec_fmt(v_vals)}"
+    return line
+
+
+def run_scal_case(env, chk, case, lines, pending):
+    np, torch = env["np"], env["torch"]
+    cj = case_json(case)
+    x_items = None if case.get("x") is None else [(n, list(vals)) for n, vals in case["x"]]
+    v_vals = case.get("v")
+    obj, raw, via = scal_build(env, case)
+    info = dict(cj=cj, built=obj if isinstance(obj, str) else "ok", exact=bool(case.get("exact")), ops={}, raw=raw,
+                compare=("len", "slices", "stack", "scaling", "unstack", "unscaling"))
+    well_x = right_v = nonzero = False
+    if not isinstance(obj, str):
+        names = list(obj.scalings)
+        loc = {n: obj.scalings[n].loc.detach().numpy().astype(np.float32) for n in names}
+        scale = {n: obj.scalings[n].scale.detach().numpy().astype(np.float32) for n in names}
+        dims = [len(loc[n]) for n in names]
+        info.update(names=names, loc=loc, scale=scale)
+        # ---- predicates on the implementation (independent of the Lean model)
+        try:
+            n_len = len(obj)
+            sl = [(n, obj.slices[n].start, obj.slices[n].stop, obj.slices[n].step) for n in obj.slices]
+        except Exception as e:  # noqa
+            chk.impl_failure(cj, f"len / slices of the scalings raised {type(e).__name__}")
+            n_len, sl = None, []
+        info["len"], info["slices"] = n_len, [(n, a, b) for n, a, b, _ in sl]
+        cum = [0]
+        for d in dims:
+            cum.append(cum[-1] + d)
+        if n_len != cum[-1]:
+            chk.impl_failure(cj, f"len(scalings) = {n_len}, sum of the variables' dimensions = {cum[-1]}")
+        if [(n, a, b, st) for n, a, b, st in sl] != [(n, cum[i], cum[i + 1], None) for i, n in enumerate(names)]:
+            chk.impl_failure(cj, f"slices {sl} do not partition [0, {cum[-1]}) in the order of the variables with widths {dims}")
+        if case["via"] == "state":
+            st = scal_models(env, case["model"]).state
+            if names != list(st.dag.sorted_variables_by_type[env["ILV"]]):
+                chk.impl_failure(cj, f"variables of from_state {names} are not the individual latent variables in DAG order")
+            for n, var in st.dag.sorted_variables_by_type[env["ILV"]].items():
+                pn = getattr(var.prior, "parameters_names", ())
+                shape = tuple(var.get_prior_shape(st.dag))
+                if len(pn) == 2 and n in loc:   # normal prior: mode = its mean parameter, stddev = its std parameter
+                    m = torch.broadcast_to(st[pn[0]], shape).numpy().astype(np.float32)
+                    s = torch.broadcast_to(st[pn[1]], shape).numpy().astype(np.float32)
+                    if not (np.array_equal(loc[n], m) and np.array_equal(scale[n], s)):
+                        chk.impl_failure(cj, f"from_state: loc / scale of '{n}' are not the prior mode {m.tolist()} / stddev {s.tolist()}")
+        ops = scal_ops(env, obj, x_items, v_vals)
+        info["ops"] = ops
+        nonzero = all(bool((scale[n] != 0).all()) for n in names) and bool(names)
+        xd = dict(x_items) if x_items is not None else None
+        well_x = xd is not None and all(n in xd and len(xd[n]) == len(loc[n]) for n in names) and bool(names)
+        right_v = v_vals is not None and len(v_vals) == cum[-1] and bool(names)
+        eps = float(U32)
+        if well_x:
+            ref = np_reference(env, names, loc, scale, x_by_name={n: [float(Fraction(a)) for a in xd[n]] for n in names})
+            got = ops["scaling"]
+            x_flat = np.concatenate([np.asarray([float(Fraction(a)) for a in xd[n]], dtype=np.float32) for n in names])
+            if ops["stack"][0] != "ok" or list(ops["stack"][1]) != x_flat.tolist():
+                chk.impl_failure(cj, f"stack of a well-shaped mapping is not the concatenation of its values: {ops['stack']}")
+            if got[0] != "ok":
+                chk.impl_failure(cj, f"scaling of a well-shaped mapping raised {got[1]}")
+            elif not (isinstance(got[1], np.ndarray) and got[1].shape == ref["scaling"].shape and
+                      np.array_equal(got[1], ref["scaling"], equal_nan=True)):
+                chk.impl_failure(cj, f"scaling(x) = {np.asarray(got[1]).tolist()} is not (x - loc)/scale = {ref['scaling'].tolist()} per coordinate")
+            elif nonzero:
+                # round trips
+                try:
+                    back, why = rows_of(obj.unscaling(got[1].astype(np.float64)))
+                    un, why2 = rows_of(obj.unstack(obj.stack({n: torch.tensor([float(Fraction(a)) for a in xd[n]]) for n in names})))
+                except Exception as e:  # noqa
+                    back, why, un, why2 = None, f"raised {type(e).__name__}", None, ""
+                if back is None or un is None:
+                    chk.impl_failure(cj, f"round trip on a well-shaped mapping: {why or why2}")
+                else:
+                    if [(n, r) for n, r in un] != [(n, x_flat[cum[i]:cum[i + 1]].tolist()) for i, n in enumerate(names)]:
+                        chk.impl_failure(cj, "unstack(stack(x)) != x for a well-shaped mapping")
+                    for i, (n, r) in enumerate(back):
+                        xs = x_flat[cum[i]:cum[i + 1]].astype(np.float64)
+                        tol = 0.0 if case.get("exact") else 4 * eps * (np.abs(xs) + np.abs(loc[n].astype(np.float64)))
+                        if n != names[i] or len(r) != len(xs) or not bool((np.abs(np.asarray(r, dtype=np.float64) - xs) <= tol).all()):
+                            chk.impl_failure(cj, f"unscaling(scaling(x)) != x for variable '{n}': {r} vs {xs.tolist()}")
+                            break
+        if right_v:
+            v64 = np.array([float(Fraction(a)) for a in v_vals], dtype=np.float64)
+            ref = np_reference(env, names, loc, scale, v=v64)
+            got = ops["unscaling"]
+            rows, why = rows_of(got[1]) if got[0] == "ok" else (None, f"raised {got[1]}")
+            if rows is None:
+                chk.impl_failure(cj, f"unscaling of a vector of the right length: {why}")
+            elif [n for n, _ in rows] != names or any(r != ref["unscaling"][n].tolist() for n, r in rows):
+                chk.impl_failure(cj, f"unscaling(v) = {rows} is not loc + scale*v per coordinate, split by the slices: "
+                                     f"{[(n, ref['unscaling'][n].tolist()) for n in names]}")
+            elif nonzero:
+                try:
+                    again = obj.scaling({n: torch.tensor(r, dtype=torch.float32) for n, r in rows})
+                    st_un = obj.stack({n: t[0] for n, t in obj.unstack(torch.as_tensor(v64, dtype=torch.float32)).items()}).tolist()
+                except Exception as e:  # noqa
+                    again, st_un = None, None
+                    chk.impl_failure(cj, f"scaling(unscaling(v)) raised {type(e).__name__}")
+                if again is not None:
+                    if st_un != v64.astype(np.float32).tolist():
+                        chk.impl_failure(cj, "stack(unstack(v)) != v for a vector of the right length")
+                    lflat = np.concatenate([loc[n] for n in names]).astype(np.float64)
+                    sflat = np.concatenate([scale[n] for n in names]).astype(np.float64)
+                    tol = 0.0 if case.get("exact") else 4 * eps * ((np.abs(lflat) + np.abs(sflat * v64)) / np.abs(sflat) + np.abs(v64))
+                    if again.shape != v64.shape or not bool((np.abs(again.astype(np.float64) - v64) <= tol).all()):
+                        chk.impl_failure(cj, f"scaling(unscaling(v)) != v: {again.tolist()} vs {v64.tolist()}")
+        if nonzero:
+            # the start point is 0 when the initial values are the prior modes
+            try:
+                z = obj.scaling({n: obj.scalings[n].loc.clone() for n in names})
+                if not (z.shape == (cum[-1],) and bool((z == 0).all())):
+                    chk.impl_failure(cj, f"scaling(prior modes) = {z.tolist()} is not the zero vector")
+            except Exception as e:  # noqa
+                chk.impl_failure(cj, f"scaling(prior modes) raised {type(e).__name__}")
+        info["zero_scale"] = any(bool((scale[n] == 0).any()) for n in names)
+    lines.append(scal_request(via, raw, x_items, v_vals))
+    pending.append(("scal", case, info))
+    chk.case(("scal", str(cj)), nontrivial=(not isinstance(obj, str)) and len(raw) >= 2 and (well_x or right_v),
+             sample=cj if chk.hist.get("scalings_kind", {}).get(case["sub"], 0) < 1 else None,
+             tags={"algo": "scalings", "scalings_kind": case["sub"], "scalings_via": case["via"],
+                   "scalings_construction": "ok" if not isinstance(obj, str) else obj,
+                   "scalings_n_variables": len(raw), "scalings_x": "none" if x_items is None else ("well-shaped" if well_x else "other"),
+                   "scalings_v": "none" if v_vals is None else ("right-length" if right_v else "other"),
+                   "scalings_zero_scale": bool(info.get("zero_scale")) and not isinstance(obj, str)})
+
+
+def parse_point(s):
+    if s == "_":
+        return []
+    out = []
+    for part in s.split("&"):
+        k, vals = part.split("~")
+        out.append((bytes.fromhex(k[1:]).decode("utf-8"), [] if vals == "e" else [Fraction(a) for a in vals.split(":")]))
+    return out
+
+
+def compare_scal(env, chk, case, info, resp):
+    """Implementation vs Lean model for one scalings case (exact on dyadic inputs, float32 envelope otherwise)."""
+    np = env["np"]
+    cj = info["cj"]
+    if resp.startswith("err:") or info["built"] != "ok":
+        if resp != info["built"]:
+            chk.disagree(cj, info["built"], resp, "construction of _AffineScalings1D")
+        return
+    try:
+        parts = dict(p.split("=", 1) for p in resp.split(" "))
+        m_len = int(parts["len"])
+        m_slices = [] if parts["slices"] == "_" else [(bytes.fromhex(a.split(":")[0][1:]).decode("utf-8"), int(a.split(":")[1]), int(a.split(":")[2]))
+                                                       for a in parts["slices"].split(",")]
+    except Exception:  # noqa
+        chk.disagree(cj, "?", resp, "unparsable model response (scal)")
+        return
+    cmp_ = info["compare"]
+    if "len" in cmp_ and info.get("len") != m_len:
+        chk.disagree(cj, info.get("len"), m_len, "len(scalings)")
+    if "slices" in cmp_ and info.get("slices") != m_slices:
+        chk.disagree(cj, info.get("slices"), m_slices, "slices")
+    names, loc, scale = info["names"], info["loc"], info["scale"]
+    lflat = [Fraction(float(a)) for n in names for a in loc[n]]
+    sflat = [Fraction(float(a)) for n in names for a in scale[n]]
+    exact = info["exact"]
+    for key in ("stack", "scaling", "unstack", "unscaling"):
+        if key not in cmp_ or key not in info["ops"]:
+            continue
+        status, val = info["ops"][key]
+        mval = parts.get(key, "?")
+        if key == "scaling" and info.get("zero_scale"):
+            chk.tag("scaling_with_zero_scale_not_compared", 1)     # IEEE inf / nan vs Lean's x/0 = 0
+            continue
+        if status == "err" or mval.startswith("err:"):
+            impl_s = val if status == "err" else "a value"
+            if impl_s != mval:
+                chk.disagree(cj, impl_s, mval, f"{key}: what is raised")
+            continue
+        try:
+            if key in ("stack", "scaling"):
+                got = [Fraction(float(a)) for a in list(val)]
+                want = [] if mval == "_" else [Fraction(a) for a in mval.split(",")]
+                if len(got) != len(want):
+                    chk.disagree(cj, [float(a) for a in got], mval, f"{key}: length")
+                    continue
+                for i, (g, w) in enumerate(zip(got, want)):
+                    tol = 0 if (exact or key == "stack") else 3 * U32 * abs(w) + TINY
+                    if abs(g - w) > tol:
+                        chk.disagree(cj, float(g), float(w), f"{key}: coordinate {i} (envelope {float(tol):.3g})")
+                        break
+            else:
+                rows, why = rows_of(val)
+                if rows is None:
+                    chk.disagree(cj, why, mval, f"{key}: shape of the returned tensors")
+                    continue
+                want = parse_point(mval)
+                if [n for n, _ in rows] != [n for n, _ in want] or [len(r) for _, r in rows] != [len(r) for _, r in want]:
+                    chk.disagree(cj, [(n, r) for n, r in rows], mval, f"{key}: names / dimensions")
+                    continue
+                bad = False
+                for (n, r), (_, w) in zip(rows, want):
+                    for j, (g, wv) in enumerate(zip(r, w)):
+                        g = Fraction(float(g))
+                        if exact or key == "unstack":
+                            tol = 0
+                        else:
+                            # coordinate-wise bound valid whatever piece broadcast: 2u(|loc|max + |scale*v|max + |result|)
+                            lm = max([abs(a) for a in lflat] + [0])
+                            vm = max([abs(Fraction(a)) for a in (case.get("v") or info.get("v_used") or ["0"])] + [0])
+                            sm = max([abs(a) for a in sflat] + [0])
+                            tol = 2 * U32 * (lm + sm * vm + abs(wv)) + TINY
+                        if abs(g - wv) > tol:
+                            chk.disagree(cj, float(g), float(wv), f"{key}: variable '{n}' coordinate {j} (envelope {float(tol):.3g})")
+                            bad = True
+                            break
+                    if bad:
+                        break
+        except Exception as e:  # noqa
+            chk.disagree(cj, str(val)[:200], mval, f"{key}: uncomparable ({type(e).__name__})")
+
+
+def link_scipy_run(env, chk, case, model, data, input_ids, ips, rec, lines, pending):
+    """On a recorded real scipy_minimize run: the point handed to scipy is scaling(initial values), the estimate returned is
+    unscaling(res.x), the objective scipy sees at x0 is the loss at the initial values — against a bit-exact numpy reference
+    (independent of `_AffineScalings1D`'s own methods) and against the Lean model."""
+    np, torch = env["np"], env["torch"]
+    cj = case_json(case)
+    st = model.state
+    for i, (idx, call) in enumerate(zip(input_ids, rec.calls)):
+        sc = call["scaling"]
+        try:
+            names = list(sc.scalings)
+            loc = {n: sc.scalings[n].loc.detach().numpy().astype(np.float32) for n in names}
+            scale = {n: sc.scalings[n].scale.detach().numpy().astype(np.float32) for n in names}
+        except Exception as e:  # noqa
+            chk.impl_failure(cj, f"id {idx!r}: the scalings handed to the optimiser are unreadable ({type(e).__name__})")
+            continue
+        # the coordinates are the prior-standardized ones of this model
+        for n, var in st.dag.sorted_variables_by_type[env["ILV"]].items():
+            pn = getattr(var.prior, "parameters_names", ())
+            shape = tuple(var.get_prior_shape(st.dag))
+            if len(pn) == 2:
+                m = torch.broadcast_to(st[pn[0]], shape).numpy().astype(np.float32)
+                s = torch.broadcast_to(st[pn[1]], shape).numpy().astype(np.float32)
+                if n not in loc or not (np.array_equal(loc[n], m) and np.array_equal(scale[n], s)):
+                    chk.impl_failure(cj, f"id {idx!r}: coordinates of '{n}' are not standardized by the prior mode {m.tolist()} / stddev {s.tolist()}")
+        init = call.get("init")
+        if init is None or sorted(init) != sorted(names):
+            chk.impl_failure(cj, f"id {idx!r}: initial values {None if init is None else sorted(init)} do not cover the variables {names}")
+            continue
+        x_by = {n: init[n].reshape(-1).numpy().astype(np.float32) for n in names}
+        if any(len(x_by[n]) != len(loc[n]) for n in names):
+            chk.impl_failure(cj, f"id {idx!r}: initial values are not shaped as the variables")
+            continue
+        ref = np_reference(env, names, loc, scale, x_by_name=x_by, v=np.asarray(call["x"]))
+        x0 = np.asarray(call["x0"])
+        if x0.shape != ref["scaling"].shape or not np.array_equal(x0.astype(np.float64), ref["scaling"].astype(np.float64)):
+            chk.impl_failure(cj, f"id {idx!r}: the start point handed to the optimiser {x0.tolist()} is not (initial values - prior mode) / "
+                                 f"prior stddev = {ref['scaling'].tolist()}")
+        out_i = {n: (v if isinstance(v, list) else [v]) for n, v in ips._individual_parameters[idx].items()}
+        want_ret = {n: ref["unscaling"][n].tolist() for n in names}
+        if sorted(out_i) != sorted(names) or any([float(a) for a in out_i[n]] != want_ret[n] for n in names):
+            chk.impl_failure(cj, f"id {idx!r}: the estimate returned {out_i} is not prior mode + prior stddev * (optimiser's point) = {want_ret}")
+        # the objective scipy saw first
+        fx, fv = call.get("first_x"), call.get("first_val")
+        if fx is not None and fv is not None and np.array_equal(np.asarray(fx, dtype=np.float64), x0.astype(np.float64)):
+            ds_i = env["Dataset"](data[[idx]], no_warning=True)
+            start_ref = np_reference(env, names, loc, scale, v=np.asarray(fx))["unscaling"]
+            with core.quiet():
+                f_ref = objective(env, model, ds_i, {n: start_ref[n].tolist() for n in names})
+            if not (math.isfinite(f_ref) and abs(f_ref - fv) <= 1e-4 * (1 + abs(f_ref))):
+                chk.impl_failure(cj, f"id {idx!r}: the objective the optimiser is handed at x0 ({fv!r}) is not the loss at the un-standardized "
+                                     f"point ({f_ref!r})")
+            chk.tag("objective_at_x0_checked", 1)
+        else:
+            chk.tag("first_evaluation_not_at_x0", 1)
+        # ---- the same run through the Lean model
+        raw = [[n, ["v", [fr(a) for a in loc[n]]], ["v", [fr(a) for a in scale[n]]]] for n in names]
+        x_items = [(n, [fr(a) for a in x_by[n]]) for n in names]
+        v_vals = [fr(a) for a in np.asarray(call["x"], dtype=np.float64)]
+        try:
+            sl = [(n, sc.slices[n].start, sc.slices[n].stop) for n in sc.slices]
+            n_len = len(sc)
+        except Exception:  # noqa
+            sl, n_len = None, None
+        info = dict(cj=dict(cj, individual=idx), built="ok", exact=False, raw=raw, names=names, loc=loc, scale=scale,
+                    len=n_len, slices=sl, zero_scale=False, v_used=v_vals,
+                    ops={"scaling": ("ok", x0), "unscaling": ("ok", {n: torch.tensor([out_i.get(n, [])], dtype=torch.float32) for n in names})},
+                    compare=("len", "slices", "scaling", "unscaling"))
+        lines.append(scal_request("direct", raw, x_items, v_vals))
+        pending.append(("scal", case, info))
+        chk.tag("scipy_runs_linked_to_the_scalings_model", 1)
+
+
+def gen_scal_case(env, rng, sub):
+    """One scalings case.  Numbers are dyadic (loc n/8, scale ±2^k, x m/8, v j/16): every float32 operation is exact."""
+    if sub == "state":
+        name = rng.choice(SCAL_MODELS)
+        model = scal_models(env, name)
+        st = model.state
+        import numpy as np
+        vars_ = st.dag.sorted_variables_by_type[env["ILV"]]
+        x, tot = [], 0
+        kind = rng.choice(["near", "near", "modes", "far"])
+        for n, v in vars_.items():
+            m = v.prior.mode.call(st).reshape(-1).tolist()
+            s = v.prior.stddev.call(st).reshape(-1).tolist()
+            if kind == "modes":
+                vals = [np.float32(a) for a in m]
+            else:
+                w = 2.0 if kind == "near" else 30.0
+                vals = [np.float32(a + b * rng.gauss(0, w)) for a, b in zip(m, s)]
+            x.append([n, [fr(a) for a in vals]])
+            tot += len(m)
+        order = list(range(len(x)))
+        rng.shuffle(order)
+        v = [fr(np.float32(rng.gauss(0, 2.0))) for _ in range(tot)]
+        return dict(algo="scalings", sub="state", via="state", model=name, x=[x[i] for i in order], v=v, exact=False)
+    nvar = rng.choice([1, 2, 2, 3, 3, 4]) if rng.random() > 0.04 else 0
+    names = rng.sample(SCAL_NAMES, nvar)
+    s = []
+    for n in names:
+        d = rng.choice([1, 1, 1, 2, 2, 3]) if rng.random() > 0.04 else 0
+        loc = [fmt_rat(Fraction(rng.randrange(-800, 801), 8)) for _ in range(d)]
+        scale = [fmt_rat(Fraction(rng.choice([-1, 1, 1, 1]) * 2 ** rng.randrange(0, 7), 8)) for _ in range(d)]
+        s.append([n, ["v", loc], ["v", scale]])
+    via = rng.choice(["direct", "direct", "latent"])
+    r = rng.random()
+    if s and r < 0.07:      # a degenerate prior: one zero scale
+        i = rng.randrange(len(s))
+        if s[i][2][1]:
+            s[i][2][1][rng.randrange(len(s[i][2][1]))] = "0"
+    elif s and r < 0.30:    # tensors the constructor must reshape (0-d through from_latent_variable) or refuse
+        i = rng.randrange(len(s))
+        via = rng.choice(["direct", "latent"])
+        how = rng.choice(["both0d", "both0d", "loc0d", "scale0d", "len", "2d", "2d", "2dboth"])
+        one = lambda: fmt_rat(Fraction(rng.randrange(-80, 81), 8))  # noqa
+        pw = lambda: fmt_rat(Fraction(2 ** rng.randrange(0, 7), 8))  # noqa
+        if how == "both0d":
+            s[i][1], s[i][2] = ["s", one()], ["s", pw()]
+        elif how == "loc0d":
+            s[i][1] = ["s", one()]
+        elif how == "scale0d":
+            s[i][2] = ["s", pw()]
+        elif how == "len":
+            s[i][2] = ["v", s[i][2][1] + [pw()]]
+        elif how == "2d":
+            s[i][1] = ["h", [1, max(1, len(s[i][1][1]))]]
+        else:
+            s[i][1] = s[i][2] = ["h", [1, rng.choice([1, 2])]]
+    dims = []
+    for n, l, sc in s:   # the dimension the variable has if the construction succeeds
+        dims.append(1 if l[0] == "s" else (len(l[1]) if l[0] == "v" else 1))
+    val = lambda: fmt_rat(Fraction(rng.randrange(-800, 801), 8))  # noqa
+    r = rng.random()
+    if r < 0.1:
+        x = [[n, list(l[1])] if l[0] == "v" else [n, [val()]] for n, l, _ in s]
+    elif r < 0.6:
+        x = [[n, [val() for _ in range(d)]] for n, d in zip(names, dims)]
+    elif r < 0.88:
+        x = [[n, [val() for _ in range(d)]] for n, d in zip(names, dims)]
+        if x:
+            i = rng.randrange(len(x))
+            how = rng.choice(["drop", "longer", "longer2", "shorter", "empty", "one"])
+            if how == "drop":
+                x.pop(i)
+            elif how == "longer":
+                x[i][1] = x[i][1] + [val()]
+            elif how == "longer2":
+                x[i][1] = x[i][1] + [val(), val()]
+            elif how == "shorter":
+                x[i][1] = x[i][1][:-1]
+            elif how == "empty":
+                x[i][1] = []
+            else:
+                x[i][1] = [val()]
+    else:
+        x = None
+    if x is not None:
+        rng.shuffle(x)
+        if rng.random() < 0.2:
+            x.insert(rng.randrange(len(x) + 1), ["extra", [val()]])
+    tot = sum(dims)
+    vv = lambda: fmt_rat(Fraction(rng.randrange(-64, 65), 16))  # noqa
+    r = rng.random()
+    if r < 0.6:
+        v = [vv() for _ in range(tot)]
+    elif r < 0.88:
+        k = max(0, tot + rng.choice([-2, -1, -1, 1, 1, 2, 3]))
+        v = [vv() for _ in range(rng.choice([k, k, 0, 1]))]
+    else:
+        v = None
+    return dict(algo="scalings", sub="hand", via=via, s=s, x=x, v=v, exact=True)
 
 
 # ------------------------------------------------------------------ generation
@@ -540,7 +1144,12 @@ def run_cases(env, chk, cases):
             chk.note("time budget reached: remaining cases skipped")
             break
         if case["algo"] == "scipy_minimize":
-            run_scipy_case(env, chk, case)
+            run_scipy_case(env, chk, case, lines, pending)
+        elif case["algo"] == "scalings":
+            try:
+                run_scal_case(env, chk, case, lines, pending)
+            except Exception as e:  # noqa
+                chk.impl_failure(case_json(case), f"scalings case could not be evaluated on the implementation: {type(e).__name__}: {e}")
         else:
             run_mcmc_case(env, chk, case, lines, pending)
     out = chk.model(lines)
@@ -555,7 +1164,13 @@ def run(chk: core.Check):
                 "(count or fraction), annealing on/off, random seed; the chain is recorded per iteration and the estimate recomputed by "
                 "the Lean model. scipy_minimize (1-3 subjects): objective at start / returned point recomputed on a fresh state clone. "
                 "Non-trivial: at least one burn-in iteration, at least two kept draws with different losses (MCMC); at least one "
-                "individual strictly improved (scipy). Distinct by full configuration.")
+                "individual strictly improved (scipy). Prior-standardized coordinates: the real _AffineScalings1D built (a) by hand from "
+                "0-4 variables of dimension 0-3 under unicode / numeric-looking names, dyadic loc n/8 and scale +-2^k (float32 exact), 7% with "
+                "a zero scale, 23% with 0-d / 2-d / unequal loc and scale, through the constructor or through from_latent_variable, (b) by "
+                "from_state on the stored models (with / without sources, joint, binary); mappings: prior modes, well-shaped (shuffled, extra "
+                "entries), a variable missing / too long / too short / empty; vectors of the right and of wrong lengths; plus every recorded "
+                "scipy run (x0, res.x, estimate). Non-trivial (scalings): construction succeeds, at least two variables, a well-shaped mapping "
+                "or a vector of the right length. Distinct by full configuration.")
     rng = chk.rng
     cases = list(core.load_corpus(PROP))
     thorough = chk.tier == "thorough"
@@ -571,6 +1186,12 @@ def run(chk: core.Check):
     if thorough:
         for algo in ("mean_posterior", "mode_posterior"):
             cases.append(gen_case(env, rng, algo, "logistic_binary"))
+    # prior-standardized coordinates: generated last, so that the cases above are the same as before for a given seed
+    import random as _random
+    rng2 = _random.Random(rng.getrandbits(64))
+    scal_cases = [gen_scal_case(env, rng2, "hand") for _ in range(1500 if thorough else 200)]
+    scal_cases += [gen_scal_case(env, rng2, "state") for _ in range(150 if thorough else 24)]
+    cases += scal_cases
     run_cases(env, chk, cases)
     chk.exhaustive = False
 
